@@ -146,7 +146,36 @@ class Mat(PType):
         return np.array(value, float)
 
 
-def random_rotation(rng):
+def _axis_angle(axis, ang):
+    x, y, z = axis
+    nrm = math.sqrt(x * x + y * y + z * z)
+    x, y, z = x / nrm, y / nrm, z / nrm
+    c, s, C = math.cos(ang), math.sin(ang), 1 - math.cos(ang)
+    return [[c + x * x * C, x * y * C - z * s, x * z * C + y * s],
+            [y * x * C + z * s, c + y * y * C, y * z * C - x * s],
+            [z * x * C - y * s, z * y * C + x * s, c + z * z * C]]
+
+
+def random_rotation(rng, specials=True):
+    """uniform over SO(3) plus, with probability 0.2, the special cases the properties name: half turns
+    (exact and near), axis-aligned rotations, Euler angles at / near gimbal lock"""
+    if specials and rng.random() < 0.2:
+        kind = rng.randrange(4)
+        if kind == 0:
+            ax = rng.choice([(1, 0, 0), (0, 1, 0), (0, 0, 1), (1, 1, 0), (1, 1, 1), (1, -1, 0), (1, 2, 3)])
+            return _axis_angle(ax, math.pi - rng.choice([0.0, 0.0, 1e-9, 1e-7, 1e-5]))
+        if kind == 1:
+            ax = rng.choice([(1, 0, 0), (0, 1, 0), (0, 0, 1)])
+            return _axis_angle(ax, rng.choice([0.0, math.pi / 2, -math.pi / 2, math.pi / 3, 2 * math.pi / 3]))
+        if kind == 2:
+            e = rng.choice([0.0, 1e-12, 1e-9, 3e-8, 1e-6, 5e-5, 1e-4, 1e-3])
+            PHI = e if rng.random() < 0.5 else math.pi - e
+            p1, p2 = rng.uniform(0, 2 * math.pi), rng.uniform(0, 2 * math.pi)
+            c1, s1, c2, s2, cP, sP = math.cos(p1), math.sin(p1), math.cos(p2), math.sin(p2), math.cos(PHI), math.sin(PHI)
+            return [[c1 * c2 - s1 * s2 * cP, -c1 * s2 - s1 * c2 * cP, s1 * sP],
+                    [s1 * c2 + c1 * s2 * cP, -s1 * s2 + c1 * c2 * cP, -c1 * sP],
+                    [s2 * sP, c2 * sP, cP]]
+        return _axis_angle((rng.gauss(0, 1), rng.gauss(0, 1), rng.gauss(0, 1) + 1e-3), rng.uniform(-math.pi, math.pi))
     # uniform quaternion
     while True:
         q = [rng.gauss(0, 1) for _ in range(4)]
@@ -409,6 +438,7 @@ class Engine:
                     c.speculative = False
                 c.probe_env = self.probe_env(k)
                 actual = k.actuals(*args)
+                snapshot = [(i, list(a.flat)) for i, a in enumerate(actual) if isinstance(a, NPM.SArr)]
                 if hasattr(k, 'extra_ns'):
                     fn.__globals__.update(k.extra_ns(*args))      # per-path stubs built from the symbolic arguments
                 try:
@@ -422,6 +452,33 @@ class Engine:
                 except (ValueError, AssertionError, ZeroDivisionError, IndexError, KeyError, TypeError) as e:
                     outcome = ('raise', e)
                 work.extend(c.pending)
+                # frame condition: array arguments are not modified (unless the contract lists them in `modifies`)
+                for i, before in snapshot:
+                    if i in getattr(k, 'modifies', ()):
+                        continue
+                    after = actual[i].flat
+                    defs = c.memo.get('letdefs', {})
+                    alias = c.memo.get('letalias', {})
+
+                    def _same(x, y):
+                        # a let-name stands for the value it abbreviates: no modification
+                        for _ in range(8):
+                            if (x is y) or (not T.symbolic(x, y) and x == y):
+                                return True
+                            if not (isinstance(x, (R, I)) and isinstance(y, (R, I))):
+                                return False
+                            if z3.eq(T.lift(x).z, T.lift(y).z):
+                                return True
+                            yid = T.lift(y).z.get_id()
+                            if any(z3.eq(T.lift(x).z, T.lift(a).z) for a in alias.get(yid, ())):
+                                return True
+                            if yid not in defs:
+                                return False
+                            y = defs[yid]
+                        return False
+                    same = len(after) == len(before) and all(_same(x, y) for x, y in zip(before, after))
+                    if not same:
+                        c.oblige('frame.argument_%d_not_modified' % i, False)
                 results.append(PathResult(c, args, outcome))
                 npaths += 1
                 if npaths > k.max_paths:
